@@ -279,6 +279,19 @@ func (e *SpecEnv) eval(x ast.Expr) (Val, error) {
 		}
 		return Val{T: e.fc.readLVal(e.st, &LVal{Kind: lvHeap, Ptr: v.T, Base: pt.Elem()}), Ty: pt.Elem()}, nil
 	case *ast.UnaryExpr:
+		if n.Op == token.AND {
+			// &g for a package-level variable g: the variable's (stable) address
+			if id, ok := ast.Unparen(n.X).(*ast.Ident); ok && e.pkg != nil {
+				if _, shadow := e.vars[id.Name]; !shadow {
+					if o, ok := e.pkg.Pkg.Scope().Lookup(id.Name).(*types.Var); ok {
+						if g, ok := e.fc.eng.prog.Package(o.Pkg()).Members[o.Name()].(*ssa.Global); ok {
+							return Val{T: e.fc.globalAddr(g), Ty: types.NewPointer(o.Type())}, nil
+						}
+					}
+				}
+			}
+			return Val{}, fmt.Errorf("& is supported on package-level variables only")
+		}
 		sub := e
 		if n.Op == token.NOT {
 			sub = e.withPol(-e.pol)
@@ -438,6 +451,19 @@ func (e *SpecEnv) evalIdent(name string) (Val, error) {
 	if e.ghost != nil {
 		if v, ok := e.ghost(name); ok {
 			return v, nil
+		}
+	}
+	// captured variables of a closure under contract: read through the capture pointer
+	if e.fc != nil && e.fc.fn != nil && e.st != nil {
+		for _, fv := range e.fc.fn.FreeVars {
+			if fv.Name() != name {
+				continue
+			}
+			if pv, ok := e.fc.vals[fv]; ok {
+				if pt, ok := fv.Type().Underlying().(*types.Pointer); ok {
+					return Val{T: e.fc.readLVal(e.st, &LVal{Kind: lvHeap, Ptr: pv.T, Base: pt.Elem()}), Ty: pt.Elem()}, nil
+				}
+			}
 		}
 	}
 	if e.pkg != nil {
